@@ -61,6 +61,10 @@ def _valid_problem(rng):
 
 def cases(rng, tier):
     N = 40 if tier == "quick" else 400
+    # partition keys of results and observables: strict superset, strict subset, renamed, equal (in any order)
+    for ko, kr in (([0, 1], [0, 1, 9]), ([0, 1, 2], [0, 1]), ([0, 1], [0, 7]), ([2, 0, 1], [1, 2, 0]), ([0], [0, 3]), ([0, 4], [4])):
+        yield ("validate", {"what": "reconstruct_args", "observables": "dict", "results": "dict", "obs_keys": ko, "res_keys": kr,
+                            "phases": [[0] for _ in ko], "nob": 1, "always_oracle": True})
     for fn in ("cut_gates", "find_cuts"):
         for nregbits, nloose in ((0, 1), (2, 0), (1, 1), (0, 0), (0, 2)):
             yield ("validate", {"what": "no_classical", "nregbits": nregbits, "nloose": nloose, "fn": fn, "measure": rng.random() < 0.5,
